@@ -265,7 +265,8 @@ def run_conc(case, choices=None, default="rr"):
                 await ctx.suspend(("getter", n))
             if case["fail_run"] == n:
                 rec[0] = "failed"
-                raise GETTER_ERRORS[case.get("exc", "ValueError")]("planned getter failure")
+                rec[1] = GETTER_ERRORS[case.get("exc", "ValueError")]("planned getter failure")
+                raise rec[1]
             value = ["value", n] if not case.get("small_value") else _small(n)
             rec[0], rec[1] = "returned", value
             return value
@@ -294,7 +295,11 @@ def run_conc(case, choices=None, default="rr"):
                 flags["shared-placeholder"] = True
             try:
                 value = await obj.prop
-            except FAILURES:
+            except FAILURES as exc:
+                owner = next((r[2] for r in runs if r[0] == "failed" and r[1] is exc), None)
+                if owner != f"t{i}":
+                    # the failure of a getter run belongs to the task that ran it; others compute for themselves
+                    problems.append(("getter-failure-of-one-task-raised-in-another", f"task {i} got {exc!r} of {owner}"))
                 continue
             finally:
                 waiting[0] -= 1
@@ -324,8 +329,12 @@ def run_conc(case, choices=None, default="rr"):
         return sched, [(sched.verdict, f"{detail} trace={sched.trace[-10:]}")], flags
     if problems:
         return sched, problems, flags
+    cancelled_name = f"t{case['cancel'][0]}" if case["cancel"] else None
     for t in sched.tasks:
         kind, value = t.outcome
+        if kind == "raise" and value is cancel_obj and t.name != cancelled_name:
+            # a cancellation belongs to the task it was thrown into: others proceed (and compute themselves)
+            return sched, [("cancellation-of-one-task-raised-in-another", f"{t.name} {detail}")], flags
         if kind == "raise" and value is not cancel_obj:
             return sched, [("task-raised", f"{t.name}: {value!r}")], flags
     returned = [r[1] for r in runs if r[0] == "returned"]
